@@ -134,15 +134,20 @@ def run_case(ck: Check, camp, case: dict) -> None:
             continue
         err = e2e.parses(code, target)
         if err:
-            site, trig = attribute(case, target)
-            ck.fail({**base, "mechanism": "unparsable", "site": site, "trigger": trig}, case, f"{path} does not parse for target {target or 'default'}: {err}")
+            site, trig, rendering = attribute(case, target, code)
+            ck.fail({**base, "mechanism": "unparsable", "site": site, "trigger": trig, "rendering": rendering}, case, f"{path} does not parse for target {target or 'default'}: {err}")
             return
     if len(camp.samples) < 2:
         camp.samples.append({"model": model, "opts": opts, "formatters": fm, "target": target, "doc_features": case.get("features")})
 
 
-def attribute(case: dict, target) -> tuple[str, str]:
-    """Which kind of input text makes the output unparsable (for matching known findings D4 / D5)."""
+def attribute(case: dict, target, code: str) -> tuple[str, str, str]:
+    """Which kind of input text makes the output unparsable (for matching known findings D4 / D5), and whether
+    the emitted text is what the recorded defective mechanism produces (verbatim description / raw literal with
+    the cooked-literal table) — any other rendering is a different violation."""
+    from jinja2.filters import do_indent
+
+    from .c10 import D5_PINNED_PATTERN_TABLE
     for what in ("description", "pattern"):
         d2 = neutralise(case["doc"], what)
         if d2 == case["doc"]:
@@ -154,10 +159,13 @@ def attribute(case: dict, target) -> tuple[str, str]:
             cls = {c for s in strs for c in gens.classify_string(s)}
             if what == "description":
                 trig = "nul" if "nul" in cls else "quote" if cls & {"triple_quote", "double_quote"} else "backslash" if "backslash" in cls else "other"
-                return "docstring", trig
-            trig = "backslash_or_quote" if cls & {"backslash", "single_quote"} else "other"
-            return "pattern", trig
-    return "unknown", "other"
+                dangerous = [d for d in strs if set(gens.classify_string(d)) & {"nul", "triple_quote", "double_quote", "backslash"}]
+                verbatim = any((do_indent(d, 4) in code or d in code) for d in dangerous)
+                return "docstring", trig, "verbatim_unescaped" if verbatim else "other"
+            trig = "nul" if "nul" in cls else "backslash_or_quote" if cls & {"backslash", "single_quote"} else "other"
+            raw = all(("r'" + p.translate(str.maketrans(D5_PINNED_PATTERN_TABLE)) + "'") in code for p in strs)
+            return "pattern", trig, "raw_literal_with_cooked_table" if raw else "other"
+    return "unknown", "other", "n/a"
 
 
 def make_case(rng, clean: bool) -> dict:
